@@ -8,6 +8,7 @@ import (
 	"fmt"
 	"os"
 	"path/filepath"
+	"runtime/debug"
 	"strconv"
 	"strings"
 	"sync"
@@ -76,6 +77,8 @@ func Scale(q, th int) int {
 }
 
 type caseEnd struct{}
+
+var lastPanic string
 
 // Ctx is handed to a property body for one case.
 type Ctx struct {
@@ -266,6 +269,12 @@ func (c *Ctx) runBody(body func(c *Ctx)) {
 		if r := recover(); r != nil {
 			if _, ok := r.(caseEnd); ok {
 				return
+			}
+			// a panic that is not the harness's own case-end signal: rapid would swallow it into
+			// its log (which goes to the discarded stdout); keep it visible on stderr
+			if !c.failed && fmt.Sprint(r) != lastPanic {
+				lastPanic = fmt.Sprint(r)
+				fmt.Fprintf(os.Stderr, "HARNESS-PANIC property=%s check=%s: %v\n%s\n", c.Prop, c.Check, r, debug.Stack())
 			}
 			panic(r)
 		}
